@@ -138,7 +138,7 @@ class Crc:
 
 
 class State:
-    __slots__ = ('regs', 'mem', 'n', 'c', 'T', 'w', 'acc', 'iv', 'cls', 'ne', 'trace', 'entry', 'marks', 'pred')
+    __slots__ = ('regs', 'mem', 'n', 'c', 'T', 'w', 'acc', 'iv', 'cls', 'ne', 'trace', 'entry', 'marks', 'pred', 'gh')
 
     def clone(self):
         s = State()
@@ -152,6 +152,7 @@ class State:
         s.entry = self.entry
         s.marks = set(self.marks)
         s.pred = self.pred
+        s.gh = dict(self.gh) if getattr(self, 'gh', None) is not None else {}
         return s
 
     # ---- bytes
@@ -194,14 +195,44 @@ class State:
                 return (s, a, l.k)
         raise AnalysisBroken('rleabs: comparison on %r is outside the domain' % (l,))
 
+    def terms(self, l):
+        """the form as k + sum a_i * X_i over tracked quantities X_i (R0 = CAP - NB0 is one quantity)"""
+        c = dict(l.c)
+        out = []
+        if 'CAP' in c and 'NB0' in c and c['CAP'] == -c['NB0']:
+            out.append(('R0', c.pop('CAP')))
+            c.pop('NB0')
+        for sname, a in c.items():
+            if sname not in self.iv:
+                if sname.startswith('v:'):
+                    self.iv[sname] = (0, 255)
+                else:
+                    raise AnalysisBroken('rleabs: comparison on %r is outside the domain' % (l,))
+            out.append((sname, a))
+        return l.k, out
+
     def rng(self, l):
-        so = self.sym_of(l)
-        if so is None:
-            return (l.k, l.k)
-        s, a, k = so
-        lo, hi = self.iv[s]
-        x, y = k + a * lo, k + a * hi
-        return (min(x, y), max(x, y))
+        k, ts = self.terms(l)
+        lo = hi = k
+        for sname, a in ts:
+            x, y = self.iv[sname]
+            p, q = a * x, a * y
+            lo += min(p, q)
+            hi += max(p, q)
+        return (lo, hi)
+
+    def norm(self, l, keep=('R0',)):
+        """replace quantities known exactly by their value"""
+        if not isinstance(l, Lin) or not l.c:
+            return l
+        k, ts = self.terms(l)
+        c = dict(l.c)
+        for sname, a in ts:
+            x, y = self.iv[sname]
+            if x == y and sname not in keep:
+                k += a * x
+                c.pop(sname, None)
+        return Lin(k, c).simp()
 
     def decide(self, l, pred):
         """truth of (l pred 0) for pred in eq ne lt le gt ge, or fork"""
@@ -217,28 +248,86 @@ class State:
         r = tv(neg[pred]) if pred in neg else tv(pred)
         if r is not None:
             return (not r) if pred in neg else r
-        # undetermined: split the symbol's interval at the threshold
-        s, a, k = self.sym_of(l)
-        slo, shi = self.iv[s]
-        # l = k + a*X ; roots: X0 = -k/a
-        if (-k) % a:
-            raise AnalysisBroken('rleabs: non-integral threshold in %r' % (l,))
-        x0 = (-k) // a
-        pieces = []
-        if slo <= x0 - 1:
-            pieces.append((slo, min(shi, x0 - 1)))
-        if slo <= x0 <= shi:
-            pieces.append((x0, x0))
-        if x0 + 1 <= shi:
-            pieces.append((max(slo, x0 + 1), shi))
-        if len(pieces) < 2:
-            raise AnalysisBroken('rleabs: cannot split %s in %r' % (s, (slo, shi)))
+        k, ts = self.terms(l)
+        ts = [(sn, a) for sn, a in ts if self.iv[sn][0] != self.iv[sn][1]] or ts
+        kk = k + sum(a * self.iv[sn][0] for sn, a in self.terms(l)[1] if (sn, a) not in ts)
+        if len(ts) == 1:
+            # undetermined: split the quantity's interval at the threshold
+            s, a = ts[0]
+            k = kk
+            slo, shi = self.iv[s]
+            if (-k) % a:
+                raise AnalysisBroken('rleabs: non-integral threshold in %r' % (l,))
+            x0 = (-k) // a
+            pieces = []
+            if slo <= x0 - 1:
+                pieces.append((slo, min(shi, x0 - 1)))
+            if slo <= x0 <= shi:
+                pieces.append((x0, x0))
+            if x0 + 1 <= shi:
+                pieces.append((max(slo, x0 + 1), shi))
+            if len(pieces) < 2:
+                raise AnalysisBroken('rleabs: cannot split %s in %r' % (s, (slo, shi)))
 
-        def mk(p):
-            def f(st):
-                st.iv[s] = p
-            return f
-        raise Fork([mk(p) for p in pieces])
+            def mk(p):
+                def f(st):
+                    st.iv[s] = p
+                    st.propagate()
+                return f
+            raise Fork([mk(p) for p in pieces])
+        if len(ts) == 2 and all(abs(a) == 1 for _, a in ts) and ts[0][1] == -ts[1][1] and pred in ('lt', 'le', 'gt', 'ge'):
+            # X - Y + k  <pred>  0 between two quantities: fork on the order and tighten both intervals
+            (x, ax), (y, ay) = ts
+            if ax < 0:
+                (x, ax), (y, ay) = (y, ay), (x, ax)
+            k = kk
+            # form: X - Y + k ; canonical question: X - Y + k < c0  with c0 = 0 (lt) or 1 (le)
+            strict = {'lt': 0, 'le': 1, 'ge': 0, 'gt': 1}[pred]
+            q = ('rel', x, y, k - strict)
+            rel = self.gh.get('rel', ())
+            for qq, truth in rel:
+                if qq == q:
+                    return truth if pred in ('lt', 'le') else not truth
+
+            def less(st):        # X - Y + k < strict  <=>  X <= Y - k + strict - 1
+                xl, xh = st.iv[x]
+                yl, yh = st.iv[y]
+                st.iv[x] = (xl, min(xh, yh - k + strict - 1))
+                st.iv[y] = (max(yl, xl + k - strict + 1), yh)
+                st.gh['rel'] = tuple(st.gh.get('rel', ())) + ((q, True),)
+                st.propagate()
+
+            def notless(st):     # X - Y + k >= strict  <=>  X >= Y - k + strict
+                xl, xh = st.iv[x]
+                yl, yh = st.iv[y]
+                st.iv[x] = (max(xl, yl - k + strict), xh)
+                st.iv[y] = (yl, min(yh, xh + k - strict))
+                st.gh['rel'] = tuple(st.gh.get('rel', ())) + ((q, False),)
+                st.propagate()
+            raise Fork([less, notless])
+        raise AnalysisBroken('rleabs: comparison on %r is outside the domain' % (l,))
+
+    def propagate(self):
+        """re-tighten the intervals of quantities related by a remembered order fact (X - Y + kk < 0, or its negation)"""
+        rel = self.gh.get('rel', ()) if self.gh else ()
+        for _ in range(4):
+            changed = False
+            for (tag, x, y, kk), truth in rel:
+                if x not in self.iv or y not in self.iv:
+                    continue
+                xl, xh = self.iv[x]
+                yl, yh = self.iv[y]
+                if truth:
+                    nx = (xl, min(xh, yh - kk - 1))
+                    ny = (max(yl, xl + kk + 1), yh)
+                else:
+                    nx = (max(xl, yl - kk), xh)
+                    ny = (yl, min(yh, xh + kk))
+                if nx != (xl, xh) or ny != (yl, yh):
+                    self.iv[x], self.iv[y] = nx, ny
+                    changed = True
+            if not changed:
+                break
 
     def holds(self, l, pred):
         """like decide but without forking: True only if it holds on the whole interval"""
@@ -430,6 +519,7 @@ class Engine:
         s.trace = []
         s.marks = set()
         s.pred = None
+        s.gh = {}
         s.mem[('S', 'rle_state')] = 0
         s.mem[('S', 'rle_character')] = TOP
         s.entry = 'fresh encoder (rle_state 0)'
